@@ -67,6 +67,8 @@ pub fn stable_hash<T: Hash + ?Sized>(v: &T) -> u64 {
 
 #[derive(Debug)]
 pub struct Ctx {
+    /// Index of this run inside its batch (enumerating scenarios decode their case from it).
+    pub index: u64,
     pub tape: Tape,
     pub tier: Tier,
     /// Hash of the event log (only simulator-visible values are fed into it).
@@ -96,6 +98,7 @@ pub struct Ctx {
 impl Ctx {
     pub fn new(tape: Tape, tier: Tier, tracing: bool) -> Self {
         Ctx {
+            index: 0,
             tape,
             tier,
             log: Fnv::default(),
@@ -145,6 +148,7 @@ impl Cx {
                 };
                 let tape = std::mem::replace(&mut g.tape, Tape::from_values(vec![]));
                 let mut c = Ctx::new(tape, g.tier, g.tracing);
+                c.index = g.index;
                 c.log = g.log.clone();
                 c.events = g.events;
                 c.trace = std::mem::take(&mut g.trace);
@@ -163,6 +167,10 @@ impl Cx {
 
     pub fn tier(&self) -> Tier {
         self.lock().tier
+    }
+
+    pub fn index(&self) -> u64 {
+        self.lock().index
     }
 
     /// A value in `[0, bound)`.
@@ -401,8 +409,10 @@ pub struct RunResult {
 }
 
 /// Executes one run of a scenario from a tape.
-pub fn execute(scn: &dyn Scenario, tape: Tape, tier: Tier, tracing: bool) -> RunResult {
-    let cx = Cx::new(Ctx::new(tape, tier, tracing));
+pub fn execute(scn: &dyn Scenario, tape: Tape, tier: Tier, tracing: bool, index: u64) -> RunResult {
+    let mut ctx = Ctx::new(tape, tier, tracing);
+    ctx.index = index;
+    let cx = Cx::new(ctx);
     let cx2 = cx.clone();
     let outcome = catch(move || scn.run(&cx2));
     let ctx = cx.into_inner();
